@@ -175,6 +175,12 @@ func (m *Machine) jsonUnmarshal(data Value, dst Value) Value {
 			m.store(p, val)
 			return IfaceVal{}
 		}
+		if pt != nil {
+			if val, ok := m.jsonConvert(src.v, src.typ, pt.Elem()); ok {
+				m.store(p, val)
+				return IfaceVal{}
+			}
+		}
 		// pointer payload into value destination and vice versa
 		if spt, ok := src.typ.Underlying().(*types.Pointer); ok && pt != nil && types.AssignableTo(spt.Elem(), pt.Elem()) {
 			sp := src.v.(PtrVal)
@@ -221,6 +227,61 @@ func (m *Machine) jsonUnmarshal(data Value, dst Value) Value {
 		}
 	}
 	panic(abortf("json.Unmarshal of %s into %s is outside the model", describe(data), iv.typ))
+}
+
+// jsonConvert: a payload encoded from one Go type decoded into a structurally compatible other
+// one (numbers into integer kinds of at least the same width, strings, booleans, slices of those,
+// values that were wrapped in interface{} when encoded). Everything else: not convertible here.
+func (m *Machine) jsonConvert(v Value, st, dt types.Type) (Value, bool) {
+	if iv, ok := v.(IfaceVal); ok {
+		if iv.typ == nil {
+			return nil, false
+		}
+		return m.jsonConvert(iv.v, iv.typ, dt)
+	}
+	if types.IsInterface(dt) {
+		return nil, false
+	}
+	switch d := dt.Underlying().(type) {
+	case *types.Basic:
+		sb, ok := st.Underlying().(*types.Basic)
+		if !ok {
+			return nil, false
+		}
+		switch {
+		case d.Info()&types.IsInteger != 0 && sb.Info()&types.IsInteger != 0:
+			db, dsigned := typeBits(dt)
+			sbits, ssigned := typeBits(st)
+			if t, isT := v.(*Term); isT && (dsigned == ssigned && db >= sbits || dsigned && db > sbits) {
+				return t, true
+			}
+		case d.Info()&types.IsString != 0 && sb.Info()&types.IsString != 0, d.Info()&types.IsBoolean != 0 && sb.Info()&types.IsBoolean != 0:
+			return v, true
+		}
+	case *types.Slice:
+		ss, ok := st.Underlying().(*types.Slice)
+		sv, ok2 := v.(SliceVal)
+		if !ok || !ok2 {
+			return nil, false
+		}
+		if sv.arr == nil {
+			return SliceVal{}, true
+		}
+		arr, ok := sv.arr.v.(ArrayVal)
+		if !ok {
+			return nil, false
+		}
+		e := make([]Value, 0, sv.len)
+		for i := sv.off; i < sv.off+sv.len; i++ {
+			c, ok := m.jsonConvert(arr.e[i], ss.Elem(), d.Elem())
+			if !ok {
+				return nil, false
+			}
+			e = append(e, m.deepCopy(c, map[*Obj]*Obj{}))
+		}
+		return SliceVal{arr: m.newObj(ArrayVal{e}, types.NewArray(d.Elem(), int64(len(e))), "json-decoded"), len: len(e), cap: len(e)}, true
+	}
+	return nil, false
 }
 
 func init() {
